@@ -114,6 +114,15 @@ func (t *Teamserver) ListenerStart(ListenerType int, info any) error {
 		break
 	}
 
+	// the handlers store the listener through ListenerAdd, which can only log a failed write
+	// (disk full, no file descriptor left for the journal): a listener whose row did not get
+	// into the database is not kept - it would be running and announced now, and gone after
+	// the next start
+	if !t.DB.ListenerExist(ListenerName) {
+		t.listenerStartUndo(ListenerName, ListenerConfig)
+		return errors.New("failed to store listener")
+	}
+
 	t.Listeners = append(t.Listeners, &Listener{
 		Name:   ListenerName,
 		Type:   ListenerType,
@@ -121,6 +130,37 @@ func (t *Teamserver) ListenerStart(ListenerType int, info any) error {
 	})
 
 	return nil
+}
+
+// listenerStartUndo takes back what the Start() of a handler did for a listener that
+// ListenerStart does not keep: the server or route, the retained announcement, and the
+// entry in the listener table of the operators that are connected.
+func (t *Teamserver) listenerStartUndo(Name string, Config any) {
+	switch config := Config.(type) {
+	case *handlers.HTTP:
+		if config.Server != nil {
+			_ = config.Server.Close()
+		}
+		config.Active = false
+
+	case *handlers.External:
+		t.EndpointRemove(config.Config.Endpoint)
+	}
+
+	t.EventsMutex.Lock()
+	var kept = make([]packager.Package, 0, len(t.EventsList))
+	for _, Event := range t.EventsList {
+		if Event.Head.Event == packager.Type.Listener.Type && Event.Body.SubEvent == packager.Type.Listener.Add && Event.Head.User == "" {
+			if name, ok := Event.Body.Info["Name"]; ok && name == Name {
+				continue
+			}
+		}
+		kept = append(kept, Event)
+	}
+	t.EventsList = kept
+	t.EventsMutex.Unlock()
+
+	t.EventBroadcast("", events.Listener.ListenerRemove(Name))
 }
 
 func (t *Teamserver) ListenerExist(Name string) bool {
